@@ -9,7 +9,7 @@ EXPLANATION = ""
 
 
 def build(tier):
-    us = irfold.build(tier)
+    us = irfold.build(tier) + irfold.build_ceval(tier)
     for u in us:
         u.obligations = [o for o in u.obligations if o.prop == "C06"]
     return us
